@@ -3,6 +3,8 @@ package checks
 import (
 	"encoding/json"
 	"fmt"
+	"strconv"
+	"strings"
 
 	"github.com/jsightapi/jsight-schema-core/notations/jschema"
 
@@ -20,6 +22,31 @@ func smExtraCases(c *core.Ctx) ([]smCase, *tlc.Result, error) {
 		if err := json.Unmarshal([]byte(l), &r); err != nil {
 			c.InfraError("bad extra case %s: %v", l, err)
 			return
+		}
+		if strings.HasPrefix(r.Fam, "scaled:") {
+			// the specification gives shape, size and the member pattern; the text is built here
+			parts := strings.Split(r.Fam, ":")
+			n, _ := strconv.Atoi(parts[2])
+			open, close := "{", "}"
+			if parts[1] == "array-of-refs" {
+				open, close = "[", "]"
+			}
+			var sb strings.Builder
+			sb.WriteString(open + "\n")
+			for i := 0; i < n; i++ {
+				line := strings.ReplaceAll(r.Root, "#", strconv.Itoa(i))
+				if i < n-1 {
+					if k := strings.Index(line, " // "); k >= 0 {
+						line = line[:k] + "," + line[k:]
+					} else {
+						line += ","
+					}
+				}
+				sb.WriteString(line + "\n")
+			}
+			sb.WriteString(close)
+			r.Root = sb.String()
+			r.Fam = "scaled:" + parts[1]
 		}
 		cases = append(cases, smCase{Skel: r.Fam, Kind: "extra", Expect: r.Expect, Extra: map[string]string{"root": r.Root, "type": r.Typ}})
 	}})
